@@ -14,7 +14,7 @@ MidC == {"0", "1", "lim-1"}
 FC == {"0", "1", "p-1", "rnd"}
 SigC == {"empty", "1B", "135B", "136B", "137B", "10kB"}
 EntryC == {"tree", "witness", "vector", "raw"}
-HistC == {"set", "append", "range", "batch", "swap-batch", "reopen"}
+HistC == {"set", "append", "range", "batch", "swap-batch", "reopen", "big-batch"}
 OthersC == {"none", "sparse"}
 
 ProveCases == [idx : IdxC, lim : LimC, mid : MidC, s : FC, e : FC, sig : SigC, entry : EntryC, hist : HistC, others : OthersC]
@@ -28,7 +28,7 @@ SigModC == {"flip", "trunc", "extend-fix", "extend-nofix", "len+1", "len-1", "le
 ProofBitC == {"first", "last", "flags", "mid1", "mid2"}
 KindC == {"raw", "stateful", "roots"}
 TreeC == {"same", "other-changed", "member-deleted", "changed-restored", "restarted", "restarted-member-deleted"}
-RootsC == {"empty", "cur", "other", "other+cur", "stale", "zero", "zeros", "zero+cur"}
+RootsC == {"empty", "cur", "other", "other+cur", "stale", "zero", "zeros", "zero+cur", "straddle1", "straddle8", "straddle16", "straddle31"}
 TamperCases ==
   [what : {"none"}, kind : KindC, tree : TreeC, roots : RootsC]
   \cup [what : {"field"}, f : FieldC, how : HowC, kind : KindC]
